@@ -139,3 +139,8 @@ Print Assumptions C13_defaults.
 Print Assumptions C13_defaults_all_set.
 Print Assumptions C13_decisions_reflect.
 Print Assumptions C13_spec_sound.
+Print Assumptions C13_consistent_inhabited.
+Print Assumptions C13_gap_inhabited.
+Print Assumptions C13_chain_dup_rejected.
+Print Assumptions C13_nil_produces_panics.
+Print Assumptions C13_no_nil_types_inhabited.
